@@ -381,12 +381,12 @@ def fixed_histories():
 def generate(rng, tier):
     quick = tier == "quick"
     cases = [Case(L.dumps(h), "fixed") for h in fixed_histories()]
-    n = 160 if quick else 2500
+    n = 520 if quick else 4000
     for i in range(n):
         cases.append(Case(L.dumps(mixed(rng, "g%d" % i, rng.choice([6, 12, 20, 30]), rng.random() < 0.7)), "mixed"))
     for i in range(n // 3):
         cases.append(Case(L.dumps(clean(rng, "c%d" % i, rng.choice([4, 8, 14]))), "clean"))
-    for i, names in enumerate([200, 1000] if quick else [200, 1000, 3000, 10000]):
+    for i, names in enumerate([200, 1000, 2000] if quick else [200, 1000, 3000, 10000]):
         cases.append(Case(L.dumps(stream(rng, "s%d" % i, names, browse=i % 2 == 1)), "stream-%d" % names))
     for i, k in enumerate([30, 200] if quick else [30, 200, 1000]):
         cases.append(Case(L.dumps(repeats(rng, "r%d" % i, k)), "repeats-%d" % k))
